@@ -23,6 +23,8 @@ CLAIMED = {
          "'Promptly' = 1 s + injected stall; a callback boundary is an await point of some task; observers are harness callbacks registered via the public watch()."),
  "C13": ("exploration", "3.C13", "Closed loop on a benign network: for every shipped snapshot the real client connects to the model spa and runs seeded histories of facade commands (every pump mode, blower/light/eco on/off from both states, target temperature, unit spellings, watercare by index/label) at drawn instants in both timing modes, some while another request is in flight; per command: exactly one (or zero when already in state) well-formed command reaches the spa, independently decoded (pack type, config/log versions, command-range sequence, keypad code from an independent table, field position, no collateral bits), the model's item reads the requested value and the facade reads it back after the echo.",
          "Spa application semantics are a harness model (ModelSpa); temperature read-back within one raw unit; benign network only (the statement quantifies over inputs and histories, not faults)."),
+ "C20": ("exploration", "3.C20", "World T: the real GeckoUdpSocket engine thread (and GeckoSpa handshake, GeckoSimulator engine) on parked real threads under a seeded baton scheduler in virtual time; four drawn sub-scenarios: FIFO/throttled sends with 1-5 (line-pre-empted) callers and incoming traffic, first-match dispatch with overlapping prefixes / runtime (un)registration / raising handlers, handler life for drawn (T, N, answer instant), and the real handshake under scripted loss of requests, replies and chosen segments.",
+         "T never below two engine iterations plus the send-queue delay; registration changes between datagrams; only the choice of who runs is simulated, the threads are real."),
 }
 PENDING = {}
 NA = {
